@@ -214,17 +214,20 @@ def r20_4(ctx):
                       "one side of a zip(outputs, testcases) passes %s first: results shift to the wrong test cases and the last ones get no result" % badz)
     ctx.check(nz >= 2, "zip-sites", run.where(), "%d zip(outputs, testcases) sites analysed (regular and timeout path)" % nz,
               "only %d zip sites found in test::Args::run (2 confirmed by reading)" % nz)
+    from .c14 import counter_roles
+    roles = counter_roles(prog)
     events = {}
     for bb, si, nm in _counter_incs(run):
-        events.setdefault(bb, {})[nm] = 1
+        events.setdefault(bb, {})[roles.get(nm, nm)] = 1
     for bb, t in run.calls():
-        if mname(t) == "Vec::push" and "outcomes" in run.arg_name(t["args"][0]):
+        # the outcome list is bound by its element type, not by its name
+        if mname(t) == "Vec::push" and "Outcome" in (t.get("self_ty") or "") and "Vec<" in (t.get("self_ty") or ""):
             events.setdefault(bb, {})["push_outcome"] = 1
     keys, outs = _segment_events(run, ve["Some"], {head}, events)
     ki = {k: i for i, k in enumerate(keys)}
-    need = ("push_outcome", "failed", "success", "count_detached")
+    need = ("push_outcome", "doc_failed", "doc_success", "total_detached")
     if not all(k in ki for k in need):
-        raise AnchorError("test::Args::run: counters %s not all found in the result loop (have %s)" % (need, keys))
+        raise AnchorError("test::Args::run: counters %s not all found in the result loop (have %s; roles %s)" % (need, keys, roles))
     good = {(0, 0, 0, 1), (1, 1, 0, 0), (1, 0, 1, 0)}
     seen = set()
     for how, cnt in outs:
@@ -234,22 +237,12 @@ def r20_4(ctx):
     ctx.check(seen and seen <= good and len(seen) == 3, "one-result-per-testcase", run.loc(head),
               "each (testcase, output) pair yields exactly one outcome counted once as failed or succeeded, or is detached and counted as such",
               "per-pair (outcomes pushed, failed, success, detached) combinations: %s" % sorted(seen))
-    # failed is incremented on the is_err edge of the validate result
-    v = [(bb, t) for bb, t in run.calls() if (callee_name(t) or "").endswith("TestCase::validate")]
-    ie = [(bb, t) for bb, t in run.calls() if mname(t) == "Result::is_err"]
-    ok = False
-    for bb, t in ie:
-        a = o.operand(t["args"][0])
-        if a.has_call("TestCase::validate") and any(run.dominates(vb, bb) for vb, _ in v):
-            be = bool_edges(run, t["target"])
-            if be:
-                tt, tf = be
-                f_inc = [b2 for b2, si, nm in _counter_incs(run) if nm == "failed"]
-                s_inc = [b2 for b2, si, nm in _counter_incs(run) if nm == "success"]
-                ok = all(b2 in run.reachable(tt) and b2 not in run.reachable(0, removed_edges=[(t["target"], tt)]) for b2 in f_inc) and \
-                    all(b2 in run.reachable(tf) and b2 not in run.reachable(0, removed_edges=[(t["target"], tf)]) for b2 in s_inc) and f_inc and s_inc
-    ctx.check(ok, "failed-iff-validate-err", run.where(), "`failed` counts exactly the pairs whose validate() returned Err, `success` the others",
-              "the failed/success counters are not tied to the is_err edge of validate()")
+    # the per-document failed / success counters are tied to the Err / Ok side of validate() by construction of their roles
+    # (counter_roles binds them by hypothesis on the validate result); both must exist
+    ok = "doc_failed" in roles.values() and "doc_success" in roles.values()
+    ctx.check(ok, "failed-iff-validate-err", run.where(), "one counter counts exactly the pairs whose validate() returned Err, another one the others (%s)" %
+              sorted((k, v) for k, v in roles.items() if v.startswith("doc_")),
+              "the failed/success counters are not tied to the Err / Ok side of validate(): %s" % roles)
     # the pushed Outcome carries that very result
     for bb, si, rvv in aggregates(run, "Outcome", "Outcome"):
         if bb in run.reachable(ve["Some"], removed_edges=run.back_edges()) and any(b2 == bb or run.dominates(head, bb) for b2 in [bb]):
@@ -266,8 +259,11 @@ def r20_4(ctx):
                 b = st["rv"]["b"].get("copy") or st["rv"]["b"].get("move")
                 if a and b:
                     adds.append((run.place_name(a), run.place_name(b)))
-    ctx.check(("count_failed", "failed") in adds and ("count_success", "success") in adds, "totals", run.where(),
-              "count_failed += failed and count_success += success after each document", "counter additions found: %s" % [x for x in adds if "count" in x[0]])
+    inv = {v: k for k, v in roles.items()}
+    ctx.check((inv.get("total_failed"), inv.get("doc_failed")) in adds and (inv.get("total_success"), inv.get("doc_success")) in adds and None not in
+              (inv.get("total_failed"), inv.get("doc_failed"), inv.get("total_success"), inv.get("doc_success")), "totals", run.where(),
+              "the failed total (the one guarding the exit status) += the per-document failed count, the success total += the per-document success count",
+              "counter additions found: %s (roles %s)" % (adds[:8], roles))
 
 
 def r20_5(ctx):
@@ -294,8 +290,11 @@ def r20_5(ctx):
                 names = [run.place_name(x) for x in [(st["discr"].get("move") or st["discr"].get("copy"))]]
                 shown = tree.show()
                 consts = [s.a.as_int() for s in sides if s.kind == "const"]
-                is_failed = "count_failed" in " ".join(run.lname(l) for l in range(len(run.locals)) if run.lname(l).split("(")[0] == "count_failed") and \
-                    any(_mentions_local(run, s, "count_failed") for s in sides)
+                from .c14 import counter_roles
+                inv_ = {v: k for k, v in counter_roles(prog).items()}
+                fname_ = inv_.get("total_failed")
+                # the guarded counter must be the one that accumulates the per-document failed counts (and the timeout increments)
+                is_failed = fname_ is not None and any(_mentions_local(run, s, fname_) for s in sides) and inv_.get("doc_failed") is not None
                 if is_failed and consts:
                     sat = {n for n in range(0, 5) if {"Gt": (n > consts[0]) if sides[1].kind == "const" else (consts[0] > n),
                                                        "Ge": (n >= consts[0]) if sides[1].kind == "const" else (consts[0] >= n),
